@@ -9,7 +9,7 @@ CHECKS = {
  "C10": dict(
   level="model_checking",
   technique="explicit-state BFS over the Parser-contract automaton; every transition replayed on the real store.CreateInMemory; invariant checked in every state",
-  text="All legal Parser event sequences up to depth 6 (quick) / 8 (thorough) over a 12-event alphabet are enumerated breadth-first; each one is replayed into a fresh real in-memory store and the whole Cursor contract (structure = model, Pos unique/ordered, parent links, per-element namespace ownership, call depth bounded by open elements at every Pull) is checked on the resulting tree. Large flat/sibling/nested streams (up to 3*10^6 events) run in a subprocess under a 64 MB stack limit.",
+  text="All legal Parser event sequences up to depth 6 (quick) / 8 (thorough) over a 13-event alphabet are enumerated breadth-first (surplus end events included: every event is also replayed directly after one); each one is replayed into a fresh real in-memory store and the whole Cursor contract (structure = model, Pos unique/ordered, parent links, per-element namespace ownership, call depth bounded by open elements at every Pull) is checked on the resulting tree. Large flat/sibling/nested streams (up to 3*10^6 events) run in a subprocess under a 64 MB stack limit.",
   note="Trusted: the 60-line reference builder impl.FromEvents (inheritance of namespace bindings by prefix). Event values outside the alphabet, duplicate prefixes/attribute names on one element and sequences longer than the bound are not covered.",
   ref="2 C10"),
 }
@@ -18,7 +18,7 @@ CHECKS.update({
  "C01": dict(
   level="exploration",
   technique="bounded-exhaustive enumeration of documents x context nodes x steps on the real evaluator, compared with a reference XPath evaluator by node identity",
-  text="Every ordered forest with <=4 (quick) / <=5 (thorough) nodes over {a,b,text,comment,PI} x 4 attribute/namespace decorations is built in the real store; every node of every kind is used as context node for all 13 axes x 12 node tests, the abbreviations, absolute paths in every syntactic position and two-step paths; results compared as identity sets with the reference evaluator.",
+  text="Every ordered forest with <=4 (quick) / <=5 (thorough) nodes over {a,b,text,comment,PI} x 5 attribute/namespace decorations (incl. elements that merely inherit namespaces) is built in the real store; every node of every kind is used as context node for all 13 axes x 12 node tests, the abbreviations, absolute paths in every syntactic position and two-step paths; results compared as identity sets with the reference evaluator.",
   note="Trusted: reference evaluator refxp (own self-test), reference tree builder. Order of namespace/attribute nodes within an element taken from the implementation. Name tests on the namespace axis not compared (outside the statement).",
   ref="2 C01"),
  "C02": dict(
@@ -30,13 +30,13 @@ CHECKS.update({
  "C03": dict(
   level="exploration",
   technique="bounded-exhaustive enumeration of documents x node-set expressions; order/duplicate oracle on the implementation's own result plus reference comparison",
-  text="All forests with <=3/4 nodes x 3 decorations: every 1-2 (thorough 1-3) step path over 13 axes x {node(),*} and attribute/namespace steps after reverse axes from every context node; a 20-30 path universe with all pairwise unions, count() of unions and association shapes from the root. Each returned slice is checked for duplicates, foreign cursors, strict monotonicity, ascending order where required, and set equality with the reference (union = sorted set union).",
+  text="All forests with <=3/4 nodes x 4 decorations: every 1-2 (thorough 1-3) step path over 13 axes x {node(),*}, attribute/namespace steps after reverse axes and 10 step forms x 7 predicates after multi-node context sets, from every context node; a 20-30 path universe with all pairwise unions, count() of unions and association shapes from the root. Each returned slice is checked for duplicates, foreign cursors, strict monotonicity, ascending order where required, and set equality with the reference (union = sorted set union).",
   note="Document order is read from the implementation's own list order (its agreement with Pos() is C10). Trusted: refxp.",
   ref="2 C03"),
  "C04": dict(
   level="exploration",
   technique="bounded-exhaustive enumeration of strings/doubles/typed values through the real conversion paths against reference conversions",
-  text="number() of every string of length <=4/5 over a 14-symbol alphabet plus boundary words, directly and through element text; string() of 37 boundary doubles judged by the statement's own criterion; 52 conversion contexts x 35 typed values (implicit = explicit); string-value of every node of every forest <=4 nodes x 4 decorations through three APIs; node-set conversions over reverse axes from every context node.",
+  text="number() of every string of length <=4/5 over a 14-symbol alphabet (incl. U+00A0, U+0663) plus boundary words (other Unicode spaces, exponents, hex ...), directly and through element text; string() of 37 boundary doubles judged by the statement's own criterion; 52 conversion contexts x 35 typed values (implicit = explicit); string-value of every node of every forest <=4 nodes x 4 decorations through three APIs; node-set conversions over reverse axes from every context node.",
   note="Trusted: refxp/value.go. Doubles outside the boundary set and longer strings are not covered.",
   ref="2 C04"),
  "C05": dict(
@@ -48,7 +48,7 @@ CHECKS.update({
  "C06": dict(
   level="exploration",
   technique="exhaustive enumeration of all pairs of 40 boundary doubles x arithmetic operators and numeric functions, compared by bit pattern with Go float64",
-  text="All ordered pairs of 40 boundary doubles x {+,-,*,div,mod}, unary minus, floor/ceiling/round of each, as variables and as literals; sum()/count() over all node-sets of size <=3 from a 10-text alphabet. No error or 'xpath query panic' allowed.",
+  text="All ordered pairs of 40 boundary doubles x {+,-,*,div,mod}, unary minus, floor/ceiling/round of each, as variables and as literals; sum()/count() over all node-sets of size <=3 from a 10-text alphabet; every operator and rounding function with node-set operands in every storage order (all permutations of every 2-3 subset) and with reverse-axis paths as operands. No error or 'xpath query panic' allowed.",
   note="Open known finding C06-round-negative-tie (pinned by the repository's TestFunctionRound). Sign of zero not compared for round().",
   ref="2 C06"),
  "C07": dict(
@@ -60,25 +60,25 @@ CHECKS.update({
  "C18": dict(
   level="exploration",
   technique="bounded-exhaustive enumeration of documents x starting nodes x relative expressions against the reference, plus path-split composition checked implementation-against-itself",
-  text="All forests <=3/4 nodes x 3 decorations: every node of every kind as Exec starting cursor for ~190 relative expressions (vs. reference at context (n,1,1)); 30 prefixes x 40 suffixes: Exec(root,P/R) against the union of Exec(n,R); P/f() against f(P) for the 7 context-dependent builtins.",
+  text="All forests <=3/4 nodes x 4 decorations: every node of every kind as Exec starting cursor for ~190 relative expressions (vs. reference at context (n,1,1)); 30 prefixes x 40 suffixes: Exec(root,P/R) against the union of Exec(n,R); P/f() against f(P) for the 7 context-dependent builtins.",
   note="Unmarshal tag context is covered in C19.",
   ref="2 C18"),
  "C11": dict(
   level="exploration",
   technique="bounded-exhaustive enumeration of binding environments x documents x expressions against the reference evaluated under the same bindings; call logs of recording user functions compared",
-  text="27 binding environments (two prefixes each unbound/urn:u/urn:v incl. aliases x three function libraries incl. user count()/true() shadowing builtins; variables of all four types in three namespaces) x all forests <=3/4 nodes with namespaced elements/attributes x 85 expressions using prefixed names, variables and calls; results and the (arguments, context, position, size) observed by user functions compared with the reference.",
+  text="27 binding environments (two prefixes each unbound/urn:u/urn:v incl. aliases x three function libraries incl. user count()/true() shadowing builtins; variables of all four types in three namespaces) x all forests <=3/4 nodes with namespaced elements/attributes x ~100 expressions using prefixed names, variables and calls (incl. prefixed calls spelling core functions; a bare node-set variable reference must return exactly the bound sequence); results and the (arguments, context, position, size) observed by user functions compared with the reference.",
   note="Assumes the library's documented 0-based ContextPosition(). Unbound names only in positions every evaluator must evaluate.",
   ref="2 C11"),
  "C12": dict(
   level="exploration",
   technique="bounded-exhaustive enumeration of documents x context nodes of every kind x name/count/lang expressions against the reference",
-  text="All forests <=3/4 nodes x 5 decorations: 100 name()/local-name()/namespace-uri()/count() expressions from every node of every kind; 106 documents with xml:lang placements over 15 tag values x 50 lang() expressions from every node.",
+  text="All forests <=3/4 nodes x 5 decorations: 100 name()/local-name()/namespace-uri()/count() expressions from every node of every kind; ~140 documents with xml:lang placements over 15 tag values (incl. every ordered arrangement of lang / p:lang / xml:lang on one element) x 50 lang() expressions from every node.",
   note="Trusted: refxp.NodeNames/Lang.",
   ref="2 C12"),
  "C08": dict(
   level="exploration",
   technique="exhaustive enumeration of all token strings up to a length bound plus grammar-derived ASTs in several renderings, against a reference recogniser/evaluator",
-  text="All token strings of length <=4 (quick) / <=5 (thorough) over a 26-token alphabet, joined with and without spaces: the reference recogniser decides expression vs. non-expression; non-expressions and XPath type errors must error, expressions must evaluate to the reference value. ~2000 generated ASTs (every triple of binary operators in both association shapes, unary minus/union vs. every operator, '*' everywhere, reserved-looking names, numeral/literal forms, nested predicates, filter paths, calls) rendered 6 ways on 3 documents against the reference evaluation of the generating tree; ~400 hand-listed lexical edge cases.",
+  text="All token strings of length <=4 (quick) / <=5 (thorough) over a 26-token alphabet, joined with and without spaces: the reference recogniser decides expression vs. non-expression; non-expressions and XPath type errors must error, expressions must evaluate to the reference value. ~5000 generated ASTs (every sequence of <=3 steps over a 10-step alphabet abbreviated and expanded, context-dependent expressions in every argument slot of 9 functions, every triple of binary operators in both association shapes, unary minus/union vs. every operator, '*' everywhere, reserved-looking names, numeral/literal forms, nested predicates, filter paths, calls) rendered 6 ways on 3 documents against the reference evaluation of the generating tree; ~400 hand-listed lexical edge cases.",
   note="Six open known findings, all in the generated lexer/grammar (gogll not available to regenerate): operator names reserved, '1.', '_' name start, whitespace inside QNames, Unicode spaces as whitespace, backslash escapes in literals. An error at the first Exec counts as rejection.",
   ref="2 C08"),
  "C09": dict(
@@ -90,13 +90,13 @@ CHECKS.update({
  "C16": dict(
   level="fault_enumeration",
   technique="bounded-exhaustive enumeration of JSON values x whitespace regimes through the real reader, with every truncation point, structural-byte mutation and reader deviation enumerated, judged by an independent JSON recogniser",
-  text="Every JSON value with <=4/5 tokens and depth <=3 over unusual keys and 6/10 scalars, three whitespace regimes, concatenated top-level values: tree vs. direct recursive mapping; every proper prefix and every single structural-byte deletion/duplication: error iff not a complete value sequence; one short read / one I/O error at every byte offset.",
+  text="Every JSON value with <=4/5 tokens and depth <=3 over unusual keys and 6/8 scalars, strings and keys spelling structural tokens, three whitespace regimes, concatenated top-level values: tree vs. direct recursive mapping; every proper prefix and every single structural-byte deletion/duplication: error iff not a complete value sequence; one short read / one I/O error at every byte offset.",
   note="Top-level values adjacent without whitespace are not judged.",
   ref="2 C16"),
  "C17": dict(
   level="exploration",
   technique="exhaustive enumeration of all tag-soup token strings up to a length bound through the real reader against an independent walk of the HTML5 parser's DOM",
-  text="Doctype + every token string of length <=4/5 over an 18-token tag-soup alphabet (two prefixes): cursor tree vs. independent recursive walk of html.Parse; deep/wide families; doctype requirement.",
+  text="Doctype + every token string of length <=4/5 over a 23-token and a 49-token tag-soup alphabet (namespace-looking attributes, multi-colon names, entities, raw-text elements): cursor tree vs. independent recursive walk of html.Parse; deep/wide families; doctype requirement.",
   note="golang.org/x/net/html is the HTML5 algorithm the statement names (trusted).",
   ref="2 C17"),
  "C19": dict(
@@ -108,7 +108,7 @@ CHECKS.update({
  "C13": dict(
   level="model_checking",
   technique="explicit-state BFS over call histories (Exec/Unmarshal/BuildExpr on shared objects) with state de-duplication; every transition replayed on fresh real objects; deep reflective fingerprints as invariant",
-  text="States are the contents/length/capacity of two caller-held node-set slots on two documents; 150+ operations per state (39 menu expressions from 3 context nodes, results optionally kept - also re-sliced with spare capacity -, Unmarshal, BuildExpr); depth 2 (quick) / 3 (thorough). After every call: fingerprints (unexported fields, spare capacity, cyclic pointers) of the tree, both slots' full-capacity views, all compiled expressions and the caller's maps unchanged; the result equals the same call's result in every other history; reused compiled expression = freshly built one.",
+  text="States are the contents/length/capacity of two caller-held node-set slots on two documents; 150+ operations per state (39 menu expressions from 3 context nodes, results optionally kept - also re-sliced with spare capacity -, Unmarshal, BuildExpr); depth 2 (quick) / 3 (thorough). After every call: fingerprints (unexported fields, spare capacity, cyclic pointers) of the tree, both slots' full-capacity views, all compiled expressions and the caller's maps unchanged; the result equals the same call's result in every other history; reused compiled expression = freshly built one. Process histories: every ordered pair of 80 calls (32 near-duplicate expression texts; 8 texts x 3 context nodes x 2 documents) in a FRESH process - the second call's outcome must equal its outcome in a process where nothing ran before. Parser order: every ambiguous alternative list of every built C08 query rotated.",
   note="BuildExpr repeatability over the parser's internal (map-iteration) ordering is enumerated at deviation bound 1: every ambiguous alternative list of every built C08 query is rotated so that each alternative comes first once (reflection on the parse forest, no hook); simultaneous deviations in two lists are not enumerated.",
   ref="2 C13"),
  "C14": dict(
@@ -120,13 +120,13 @@ CHECKS.update({
  "C20": dict(
   level="exploration",
   technique="bounded-exhaustive enumeration of file sets x flag combinations x expressions on the freshly built command, against per-file blocks derived from the library API",
-  text="11 argument sets (good/bad/unknown files, directories with and without -r, dangling symlink, missing file, stdin) x 64 flag combinations x 19 expressions: stdout must be a concatenation of exactly the expected per-file blocks; -m records must be single lines that parse back (harness-side XML parse) to the selected node's subtree with expanded names; diagnostics on stderr name each bad input.",
+  text="15 argument sets (good/bad/unknown files, % and entities in names/values, directories with and without -r, dangling symlink, missing file, stdin first/last) x ~110 flag combinations (-a -m -n -r -t -s -v -u -e -c) x 25 expressions: stdout must be a concatenation of exactly the expected per-file blocks; -m records must be single lines that parse back (harness-side XML parse) to the selected node's subtree with expanded names; diagnostics on stderr name each bad input.",
   note="Open known finding C20-newline-in-comment-or-pi. JSON-derived trees under -m (names like #obj, adjacent text nodes) are not judged for parse-back. Attribute/namespace nodes under -m only need one line carrying name and value.",
   ref="2 C20"),
  "C15": dict(
   level="exploration",
   technique="exhaustive enumeration of all strings up to a length bound over five byte/token alphabets through every public entry point, in worker subprocesses",
-  text="All expression token strings (<=3/4 tokens incl. nil variables and user functions returning (nil,nil)/errors/panicking) built and executed on 2 documents under 3 binding sets; all expression byte strings <=4/5 over 20 bytes incl. invalid UTF-8 and NUL; all XML/JSON byte strings <=5/6 and HTML token strings <=4/5 through the readers followed by 6 queries; the well-typed C01/C08 universes from every node (no 'xpath query panic'); nesting-depth sweeps in subprocesses. Oracle: returns (value,nil) or (_,err); no panic escapes; the process survives.",
+  text="All expression token strings (<=3/4 tokens incl. nil variables and user functions returning (nil,nil)/errors/panicking) built and executed on 2 documents under 3 binding sets; all expression byte strings <=4/5 over 23 symbols incl. invalid UTF-8, NUL and valid multi-byte characters; all XML/JSON byte strings <=5/6 and HTML token strings <=4/5 through the readers followed by 6 queries; the well-typed C01/C08 universes from every node (no 'xpath query panic'); an Unmarshal sweep (7 result shapes x 8 target shapes x 40 field types x tags); nesting-depth sweeps in subprocesses. Oracle: returns (value,nil) or (_,err); no panic escapes; the process survives.",
   note="Bounded exhaustive, not coverage-guided. Unmarshal targets are covered by C19. Termination of pathological parses (the GLL parser is super-linear in '/*/*...') beyond the sweep sizes is not judged.",
   ref="2 C15"),
 })
